@@ -32,7 +32,8 @@ struct Handles : Profile {
         return "each case = one generated plan of 30..120 ops over two files: honest open/attach/select/create/release of file, "
                "access-element, Vdata, Vgroup, SD, SDS, GR, RI, AN and annotation ids (nested opens of one path in different modes, "
                "release in any order, Hclose with access ids attached) interleaved with adversarial calls (released ids incl. double "
-               "release, ids of another kind, of the other file, never issued); oracle = live-handle table + failure values + ASan; "
+               "release, ids of another kind, of the other file, never issued); oracle = live-handle table + failure values + ASan + shadow run "
+               "(the plan without its adversarial calls must leave byte-identical files); "
                "non-trivial = >= 5 ops and >= 1 adversarial call checked";
     }
     std::vector<std::string> assumptions() const override
@@ -44,7 +45,7 @@ struct Handles : Profile {
     std::vector<std::string> required_probes() const override
     {
         return {"stale-rejected", "wrongkind-rejected", "never-rejected", "double-release-rejected", "close-refused-with-aids", "nested-open",
-                "upgrade-open", "foreign-rejected", "teardown", "identity-checked"};
+                "upgrade-open", "foreign-rejected", "teardown", "identity-checked", "shadow-run-compared"};
     }
 
     Plan generate(Rng &rng, bool thorough, uint64_t) override
@@ -329,6 +330,39 @@ struct Handles : Profile {
                     y.live = false;
     }
 
+    // Shadow run: the same plan without its adversarial calls.  Those calls are all refused, so they must be no-ops for
+    // everything durable: the files of the two runs are byte-identical at the end (atoms and ids are not on disk).
+    static bool adversarial(const std::string &k) { return k == "stale" || k == "wrongkind" || k == "never" || k == "foreign" || k == "closebusy"; }
+    Outcome judge(const Plan &plan, Exec &ex) override
+    {
+        Outcome full = ex.run(plan);
+        if (full.status != ST_OK)
+            return full;
+        Plan   shadow = plan;
+        size_t nadv   = 0;
+        shadow.knobs["shadow"] = 1; // the executor leaves the adversarial calls out and keeps everything else (op places, scaffolding)
+        for (auto &o : shadow.ops)
+            if (adversarial(o.kind))
+                nadv++;
+        if (nadv == 0)
+            return full;
+        Outcome sh = ex.run(shadow);
+        accumulate(ex.agg_extra, sh.st);
+        if (sh.status != ST_OK)
+            return full; // the shorter plan is a case of its own in the search; this case is judged by its own run
+        full.st.checks++;
+        full.st.probes["shadow-run-compared"]++;
+        if (sh.st.diskhash != full.st.diskhash) {
+            full.status = ST_VIOL;
+            full.v.cls  = "adversarial-call-had-effect";
+            full.v.key  = "adversarial-call-had-effect:disk";
+            full.v.msg  = strf("the %zu adversarial calls of this plan (stale, foreign, wrong-kind, never issued ids, Hclose with ids attached) were all refused, yet the files differ from "
+                               "those of the same plan without them",
+                               nadv);
+        }
+        return full;
+    }
+
     void execute(Ctx &ctx) override
     {
         S           s(ctx);
@@ -338,7 +372,10 @@ struct Handles : Profile {
             ctx.begin_op((int)i);
             const std::string &k = o.kind;
             bool               done = true;
-            if (k == "hopen") {
+            bool               shadow = p.knob("shadow", 0) != 0;
+            if (shadow && adversarial(k) && k != "foreign")
+                done = false;
+            else if (k == "hopen") {
                 int f = modn(o.arg(0), 2), mode = modn(o.arg(1), 3);
                 int acc = !s.on_disk[f] ? DFACC_CREATE : mode == 2 ? DFACC_READ : DFACC_RDWR;
                 auto open_fids = live_of(s, H_FID, f);
@@ -652,7 +689,7 @@ struct Handles : Profile {
                             ctx.fail("acquire-failed", "acquire-failed:vg-new", "Vattach(-1,w) failed");
                         Vsetname(vg, "foreign_target");
                         ctx.st.checks++;
-                        if (Vinsert(vg, s.h[(size_t)b].id) != FAIL)
+                        if (!shadow && Vinsert(vg, s.h[(size_t)b].id) != FAIL)
                             ctx.fail("foreign-accepted", "foreign-accepted:vinsert", "Vinsert accepts a vgroup id that belongs to another file");
                         Vdetach(vg);
                         ctx.probe("foreign-rejected");
